@@ -38,6 +38,10 @@ def run(ctx):
         ctx.exhaustive = False
     ev, meta = cc.kernel_events(ctx, PID, insts, compare_absorbing=False)
     cc.judge(ctx, PID, CHECKS, ev, meta, "kernel")
+    # step-by-step binding of the kernel (least-squares sweeps included) through loop-head traces
+    lt = [i for i in insts if i["eps"] > 0]
+    lt = ctx.rng.sample(lt, min(len(lt), 150 if quick else 3000))
+    cc.loop_traces(ctx, PID, lt, dict(N=3 if quick else 4, T=2, iters=[0, 1], eps=[0, 1, 2], max_edges=3 if quick else 4))
     corpus = cc.default_corpus(ctx)
     corpus += [inputs.scaled(corpus[0], 1e9), inputs.scaled(corpus[1], 1e-5)]
     settings = [{}, {"constr_iterations": 0}, {"constr_iterations": 3}, {"min_branch_length": 1.0}]
